@@ -369,3 +369,118 @@ func c17Ascend(g *flow.Func, all []*flow.Func, levels int) *flow.Func {
 	}
 	return g
 }
+
+// c17Derived is a lookup of the client table made through an accessor helper: the helper body holds
+// `v, ok := table[param]` and returns those variables; the call site `x, y := b.lookup(key)` is where the
+// rule can read the outcome (x / y in the caller's vocabulary) — per call site, because the accessor is
+// shared by several callers with different keys.
+type c17Derived struct {
+	stmt  *ast.AssignStmt // the caller's assignment
+	g     *flow.Func      // the function containing it
+	valID *ast.Ident      // caller variable receiving the looked-up value (nil if none)
+	okID  *ast.Ident      // caller variable receiving the comma-ok flag (nil if none)
+}
+
+// derivedLookups finds accessor-mediated lookups of field tableF whose key argument at the call site
+// has the canonical rendering wantCanon.
+func (b *c17Bind) derivedLookups(tableF *types.Var, wantCanon string) []c17Derived {
+	var out []c17Derived
+	for _, h := range b.funcs {
+		ho := c17FuncObj(h)
+		if ho == nil || len(b.sites[ho]) == 0 {
+			continue
+		}
+		// the raw lookup inside the helper, keyed by one of its parameters
+		var raw *ast.AssignStmt
+		var keyParam types.Object
+		nRaw := 0
+		ast.Inspect(h.Body, func(n ast.Node) bool {
+			as, ok := n.(*ast.AssignStmt)
+			if !ok || len(as.Rhs) != 1 {
+				return true
+			}
+			ix, ok := ast.Unparen(as.Rhs[0]).(*ast.IndexExpr)
+			if !ok || c17Field(h, ix.X) != tableF {
+				return true
+			}
+			if o := c17Obj(h, ix.Index); o != nil {
+				if fo, isP := b.owner[o]; isP && fo == ho && b.pidx[o] >= 0 && len(b.asg[o]) == 0 {
+					raw, keyParam = as, o
+					nRaw++
+				}
+			}
+			return true
+		})
+		if nRaw != 1 {
+			continue
+		}
+		var valObj, okObj types.Object
+		if id, ok := raw.Lhs[0].(*ast.Ident); ok && id.Name != "_" {
+			valObj = c17Obj(h, id)
+		}
+		if len(raw.Lhs) == 2 {
+			if id, ok := raw.Lhs[1].(*ast.Ident); ok && id.Name != "_" {
+				okObj = c17Obj(h, id)
+			}
+		}
+		// every return hands back those variables at fixed result positions
+		valIdx, okIdx, consistent := -1, -1, true
+		nRet := 0
+		ast.Inspect(h.Body, func(n ast.Node) bool {
+			if _, isLit := n.(*ast.FuncLit); isLit {
+				return false
+			}
+			rs, isRet := n.(*ast.ReturnStmt)
+			if !isRet {
+				return true
+			}
+			nRet++
+			vi, oi := -1, -1
+			for i, e := range rs.Results {
+				o := c17Obj(h, e)
+				if o != nil && o == valObj {
+					vi = i
+				}
+				if o != nil && o == okObj {
+					oi = i
+				}
+			}
+			if nRet > 1 && (vi != valIdx || oi != okIdx) {
+				consistent = false
+			}
+			valIdx, okIdx = vi, oi
+			return true
+		})
+		if nRet == 0 || !consistent || (valIdx < 0 && okIdx < 0) {
+			continue
+		}
+		for _, s := range b.sites[ho] {
+			if b.pidx[keyParam] >= len(s.call.Args) || b.canon(s.call.Args[b.pidx[keyParam]]) != wantCanon {
+				continue
+			}
+			var as *ast.AssignStmt
+			ast.Inspect(s.g.Body, func(n ast.Node) bool {
+				if a, ok := n.(*ast.AssignStmt); ok && len(a.Rhs) == 1 && ast.Unparen(a.Rhs[0]) == ast.Expr(s.call) {
+					as = a
+				}
+				return as == nil
+			})
+			if as == nil {
+				continue
+			}
+			d := c17Derived{stmt: as, g: s.g}
+			if valIdx >= 0 && valIdx < len(as.Lhs) {
+				if id, ok := as.Lhs[valIdx].(*ast.Ident); ok && id.Name != "_" {
+					d.valID = id
+				}
+			}
+			if okIdx >= 0 && okIdx < len(as.Lhs) {
+				if id, ok := as.Lhs[okIdx].(*ast.Ident); ok && id.Name != "_" {
+					d.okID = id
+				}
+			}
+			out = append(out, d)
+		}
+	}
+	return out
+}
